@@ -345,6 +345,21 @@ def directed(recvs, by_name, k):
     add_enum([{"ident": "Gone", "style": "unit", "skip": True, "word": True}, {"ident": "Here", "style": "unit"},
               {"ident": "Held", "style": "newtype", "fields": [F("0", L("u8"))]}])
     add_enum([{"ident": "Gone", "style": "unit", "skip": True, "word": True}], rule="lowercase")
+    # unit and newtype receivers that declare their own value-for-absent, and a holder that leaves them out
+    def add_special(kind, inner=None):
+        nonlocal k
+        name = "R%d" % k
+        k += 1
+        x = {"name": name, "kind": kind, "trait": "FromMeta", "has_default": True, "all_names": [], "depth": 1,
+             "cinfo": {"rename_all": None, "default": None, "post": None, "auk": False, "from_word": None, "from_none": "fn_" + name}}
+        if inner is not None:
+            x["inner"] = inner
+        recvs.append(x)
+        by_name[name] = x
+        return name
+    absent_unit = add_special("unit")
+    absent_newtype = add_special("newtype", L("u8"))
+    add_struct([F("w", Rv(absent_newtype)), F("u", Rv(absent_unit)), F("n", O(L("u8"))), F("tag", L("String"))])
     # newtype receivers under every container-level post-transform (the generated from_meta of a newtype has its own shape)
     for post in (None, [False, "cm_id"], [True, "ca_ok"], [True, "ca_fail"]):
         for inner in (L("u8"), O(L("String")), Rv(deep)):
@@ -591,9 +606,15 @@ def render_rust(recvs, seed):
                     out.append("pub fn %s() %s { %s }" % (fn_name, sig, wrap % expr))
                     consts[fn_name] = {"recv": n, "fields": val, "wrap": key}
         elif x["kind"] == "unit":
+            if x["cinfo"]["from_none"]:
+                out.append("pub fn %s() -> Option<%s> { Some(%s) }" % (x["cinfo"]["from_none"], n, n))
+                consts[x["cinfo"]["from_none"]] = {"recv": n, "fields": [], "wrap": "from_none"}
             out.append("#[derive(%s)] %spub struct %s;" % (", ".join(derives), container_attr(x), n))
             out.append("impl Dump for %s { fn dump(&self) -> Value { json!({\"t\": \"struct\", \"fs\": []}) } }" % n)
         elif x["kind"] == "newtype":
+            if x["cinfo"]["from_none"]:
+                out.append("pub fn %s() -> Option<%s> { Some(%s(5)) }" % (x["cinfo"]["from_none"], n, n))
+                consts[x["cinfo"]["from_none"]] = {"recv": n, "fields": [["0", {"t": "int", "v": "5"}]], "wrap": "from_none"}
             out.append("#[derive(%s)] %spub struct %s(pub %s);" % (", ".join(derives), container_attr(x), n, rust_ty(x["inner"])))
             out.append("impl Dump for %s { fn dump(&self) -> Value { json!({\"t\": \"struct\", \"fs\": [json!([\"0\", self.0.dump()])]}) } }" % n)
         else:
